@@ -13,9 +13,10 @@ from .poly import Poly
 
 
 class LimbPoly:
-    def __init__(self, leaf, opaque=None):
+    def __init__(self, leaf, opaque=None, narrow=False):
         self.leaf = leaf          # leaf(term) -> symbol name or None
         self.opaque = opaque      # opaque(term) -> symbol name or None  (whole sub-terms treated as symbols)
+        self.narrow = narrow      # model narrowing unsigned casts exactly:  (x as uN) = x - 2^N * Q(x, N)
         self.memo = {}
         self.qnames = {}
         self.assumed = []
@@ -49,6 +50,18 @@ class LimbPoly:
         if k == "c":
             return Poly.const(t[1])
         if k == "cast":
+            if self.narrow:
+                wo = ssa.WIDTH.get(t[2])
+                inner = t[1]
+                wi = None
+                if isinstance(inner, tuple) and inner:
+                    if inner[0] == "bin":
+                        wi = ssa.WIDTH.get(inner[4])
+                    elif inner[0] == "cast":
+                        wi = ssa.WIDTH.get(inner[2])
+                if wo and wi and wo < wi and not ssa.is_signed(t[2]):
+                    x = self._strip_cast(inner)
+                    return self.val(inner) - self.q(x, wo) * (1 << wo)
             return self.val(t[1])
         if k == "un" and t[1] == "Neg":
             return Poly() - self.val(t[2])
@@ -72,6 +85,15 @@ class LimbPoly:
                     if ssa.is_c(m) and m[1] > 0 and (m[1] & (m[1] + 1)) == 0:
                         kbits = m[1].bit_length()
                         xs = self._strip_cast(x)
+                        if self.narrow and isinstance(xs, tuple) and xs[0] == "bin" and xs[1] == "BitOr":
+                            # (lo | (hi << k)) & (2^w - 1)  with lo < 2^k (digit proviso):  lo + 2^k * (hi mod 2^(w-k))
+                            for lo_, sh_ in ((xs[2], xs[3]), (xs[3], xs[2])):
+                                sh_ = self._strip_cast(sh_)
+                                if isinstance(sh_, tuple) and sh_[0] == "bin" and sh_[1] in ("Shl", "ShlUnchecked") and ssa.is_c(sh_[3]) and 0 < sh_[3][1] < kbits:
+                                    k_ = sh_[3][1]
+                                    hi_ = self._strip_cast(sh_[2])
+                                    self.assumed.append(("packed-low-part-below-2^k", lo_, k_))
+                                    return self.val(lo_) + (self.val(hi_) - self.q(hi_, kbits - k_) * (1 << (kbits - k_))) * (1 << k_)
                         return self.val(xs) - self.q(xs, kbits) * (1 << kbits)
             if op == "BitOr":
                 # disjoint-support OR used for limb packing: treated as addition (proviso: supports disjoint)
